@@ -18,6 +18,7 @@ type JobSpec struct {
 	H        string         `json:"H"`
 	P        map[string]int `json:"p"`
 	Reach    []string       `json:"required_reach"`
+	Soft     []string       `json:"soft_reach"` // labels whose absence only means a name-based look into internals found nothing
 	Conc     bool           `json:"conc"`
 	Race     bool           `json:"race"`
 	MaxSched int            `json:"max_sched"`
@@ -129,6 +130,11 @@ func runJob(p *Program, j JobSpec, cross bool) *RunResult {
 				res.Incomplete = append(res.Incomplete, "required reach label never hit: "+l)
 			}
 		}
+		for _, l := range j.Soft {
+			if res.Reach[l] == 0 {
+				res.Degraded = append(res.Degraded, l)
+			}
+		}
 	}
 	return res
 }
@@ -196,6 +202,9 @@ func nativeReplay(repo, harnessDir string, hdir string, c *CexFile, cexPath stri
 	repl := map[string]string{}
 	i := 0
 	for virt, content := range ov {
+		if droppedHarness[filepath.Base(virt)] {
+			continue // does not compile against this tree (see loadProgram)
+		}
 		// only the harness's own package needs its files; others are harmless but slow: include all
 		real := filepath.Join(tmp, fmt.Sprintf("f%d.go", i))
 		i++
@@ -369,6 +378,9 @@ func cmdCheck(args []string) {
 			}
 			continue
 		}
+		if len(r.Degraded) > 0 {
+			fmt.Fprintf(os.Stderr, "NOTE: %s(%s): oracle degraded on this tree - internal names not found, assertions skipped: %v\n", j.H, paramStr(j.P), r.Degraded)
+		}
 		switch r.Status {
 		case "PASS":
 			ndecided++
@@ -521,7 +533,7 @@ func writeEvidence(path, prop, tier string, seed int, results []*RunResult, jobs
 			"transitions": r.Stats.Transitions, "cache_hits": r.Stats.CacheHits, "symmetry_pruned": r.Stats.SymPruned,
 			"instructions": r.Stats.Instrs, "vcs": r.Stats.VCs, "vcs_folded": r.Stats.VCsFolded, "vcs_solver": r.Stats.VCsSolver,
 			"branch_feasibility_queries": r.Stats.Branches, "quiescent_states": r.Stats.Quiescent,
-			"solver_queries": r.Solver.Queries, "solver_wall_s": r.Solver.WallS, "reach": r.Reach, "incomplete": r.Incomplete,
+			"solver_queries": r.Solver.Queries, "solver_wall_s": r.Solver.WallS, "reach": r.Reach, "incomplete": r.Incomplete, "oracle_degraded": r.Degraded,
 			"wall_s": r.WallS, "twin": jobs[i].Twin, "conc": jobs[i].Conc,
 		}
 		if len(r.Violations) > 0 {
